@@ -82,10 +82,11 @@ def inputs(ctx):
                         "name": rng.choice(s)["lang"]})
     # every reader that takes lang= files the cues under exactly that tag, whatever its (well-formed)
     # shape; force= on each of the three DFXP writers
-    shapes = ["es-419", "en-001", "de-CH-1996", "sl-rozaj", "ca-valencia", "en-x-caption", "zh-Hant-TW", "und", "fr", "pt-BR"]
+    shapes = ["es-419", "en-001", "de-CH-1996", "sl-rozaj", "ca-valencia", "en-x-caption", "zh-Hant-TW", "und", "fr", "pt-BR",
+              "en-us", "EN", "fr_CA", "Zh-hans"]
     for tag in shapes:
         s1 = [{"lang": tag, "cues": [{"t": 1000, "e": 1400, "x": 1}, {"t": 3000, "e": 3400, "x": 2}]}]
-        for fmt in ("SRT", "WebVTT", "MicroDVD"):
+        for fmt in ("SRT", "WebVTT", "MicroDVD", "SCC"):
             ins.append({"id": "px%d" % n, "k": "option", "via": "reader", "reader": fmt, "set": s1, "name": tag})
             n += 1
     three = [{"lang": c, "cues": [{"t": 1000 * (i + 1), "e": 1000 * (i + 1) + 400, "x": 10 * (i + 1)},
@@ -132,10 +133,12 @@ def inputs(ctx):
     # SAMI reading: language declared by class (stylesheet) or by lang attribute; codes unrelated
     # by prefix (base domain), prefix-related codes and region variants (separately reported)
     for k in range(60 if ctx.quick else 2000):
-        mode = rng.choice(["class", "class", "attr"])
+        mode = rng.choice(["class", "class", "attr", "class+attr", "attr+class"])
         fam = rng.choice(["base", "base", "prefix", "region"])
+        if mode in ("class+attr", "attr+class"):
+            fam = "base"
         codes = {"base": ["en-US", "fr-FR", "de"], "prefix": ["en", "en-US", "fr"], "region": ["en-US", "en-GB", "fr-FR"]}[fam]
-        if mode == "attr" and fam == "base":
+        if mode in ("attr", "class+attr", "attr+class") and fam == "base":
             codes = ["en", "fr", "de"] if rng.random() < 0.5 else codes
         body = []
         t = rng.randrange(0, 2000)
@@ -153,7 +156,8 @@ def inputs(ctx):
             ins.append({"id": "sr%d" % k, "k": "samiread", "mode": mode, "family": fam, "codes": codes, "body": body})
     # DFXP language fallback
     for tt in ["", "en", "pt-BR"]:
-        for divs in [[""], ["fr"], ["", "fr"], ["fr", ""], ["fr", "de"], ["", ""], ["fr", "fr"], ["en", ""]]:
+        for divs in [[""], ["fr"], ["", "fr"], ["fr", ""], ["fr", "de"], ["", ""], ["fr", "fr"], ["en", ""],
+                     ["fr", "de", "fr"], ["", "fr", ""], ["fr", "", "fr", ""], ["de", "fr", "fr", "de"]]:
             for default in ["und", "xx"]:
                 ins.append({"id": "f%d" % n, "k": "dfxplang", "tt": tt, "divs": divs, "default": default})
                 n += 1
@@ -266,6 +270,11 @@ def execute(inp):
                         "SCC": pycaption.SCCReader}[fmt]().read(doc, lang=name)
                 rec["gotlangs"] = back.get_languages()
                 rec["got"] = [{"t": int(c.start // 1000), "x": _x(c.get_text())} for c in back.get_captions(name)]
+                if fmt == "SCC":
+                    # SCC times sit on the frame grid (that is C17's subject): only the cues' identity counts here
+                    for k, g in enumerate(rec["got"]):
+                        if k < len(want):
+                            g["t"] = want[k]["t"]
             rec["ok"] = True
         except Exception as e:
             rec["err"] = type(e).__name__ + ": " + str(e)[:200]
@@ -280,10 +289,16 @@ def execute(inp):
                 inner = "&nbsp;" if p["x"] == 0 else "x%d" % p["x"]
                 if inp["mode"] == "class":
                     ps.append('<P class="%s">%s</P>' % (cls[p["lang"]], inner))
+                elif inp["mode"] == "class+attr":
+                    # a class that only styles (no lang rule) before the lang attribute
+                    ps.append('<P Class="NARRATOR" lang="%s">%s</P>' % (p["lang"], inner))
+                elif inp["mode"] == "attr+class":
+                    ps.append('<P lang="%s" class="NARRATOR">%s</P>' % (p["lang"], inner))
                 else:
                     ps.append('<P lang="%s">%s</P>' % (p["lang"], inner))
             syncs.append('<SYNC start="%d">%s</SYNC>' % (sy["t"], "".join(ps)))
         css = "\n".join(".%s {Name: %s; lang: %s; SAMI_Type: CC;}" % (cls[c], cls[c], c) for c in inp["codes"])
+        css += "\n.NARRATOR {color: yellow; font-style: italic;}"
         doc = ('<SAMI><HEAD><TITLE>t</TITLE><STYLE TYPE="text/css">\n<!--\n%s\n--></STYLE></HEAD><BODY>\n%s\n</BODY></SAMI>\n'
                % (css, "\n".join(syncs)))
         try:
@@ -331,7 +346,7 @@ def signature(inp, rec, clause):
     if rec["k"] == "samiread":
         sig["mode"] = inp["mode"]
         sig["family"] = inp["family"]
-        sig["long_code_in_attr"] = inp["mode"] == "attr" and any(len(c) > 2 for c in inp["codes"])
+        sig["long_code_in_attr"] = inp["mode"] in ("attr", "class+attr", "attr+class") and any(len(c) > 2 for c in inp["codes"])
     if rec["k"] in ("samirt",):
         sig["empty_first_language"] = bool(inp["set"]) and not inp["set"][0]["cues"]
     return sig
